@@ -805,6 +805,18 @@ func TestPropChains(t *testing.T) {
 			}
 		}
 	}
+	// two types of 6000 levels each, the second referred to from the innermost object of the first: accepted, and
+	// the example would be 12000 levels deep (recorded finding: Example() refuses it with code 307)
+	if ev.Mine(1000) {
+		deepText := func(inner string) string {
+			return strings.Repeat("{\n\"k\": ", 6000) + inner + strings.Repeat("\n}", 6000)
+		}
+		c := OwnCase{P: sut.Project{Root: "{\n  \"r\": @d1\n}", Types: []sut.Named{{Name: "@d1", Text: deepText("@d2")}, {Name: "@d2", Text: deepText("1")}}}}
+		n++
+		if v := ownOracle(c); v != nil && ev.Report("chains", c, v) {
+			bad++
+		}
+	}
 	ev.Count("chains", n)
 	ev.Exhaustive("chains", "chains of 10 ... 300 distinct types (plain property, array item with minItems 1, choice whose first alternative continues)")
 	if bad > 0 {
